@@ -459,7 +459,9 @@ RETCODE adfAddInCache ( struct AdfVolume * const  vol,
         newDirc.recordsNb = 0L;
         newDirc.nextDirC = 0L;
 
-        adfPutCacheEntry(&dirc, &offset, &newEntry);
+        /* the record goes at the start of the new block */
+        int newOffset = 0;
+        adfPutCacheEntry(&newDirc, &newOffset, &newEntry);
         newDirc.recordsNb++;
 
         rc = adfWriteDirCBlock ( vol, nCache, &newDirc );
